@@ -531,15 +531,28 @@ class Oracle:
         self.on_emit(c, outs, bad, None)
 
     def on_rto(self, c, t, head, outs, bad, op):
+        """the retransmission timer is expired by the harness (verif hook); d = what it had been armed with (ns)"""
         kv = dict(x.split("=") for x in t[2:] if "=" in x)
-        dt = int(kv.get("dt", -1))
+        d = int(kv.get("d", -1))
         if not c.alive:
             return
         outstanding = c.max_end > c.una
-        if outstanding and not c.prev_wnd:
+        if outstanding and d < 0:
+            # something is in flight and no timer is armed: the connection can go quiet for ever
+            bad.append("c02.outstanding-data-without-timer")
+        if d >= 0:
+            if d > 120 * 10**9:
+                # the sender gives up once the timeout reaches 60 s: nothing legitimate is armed for longer
+                bad.append("c02.retransmission-timeout-absurd")
+            if d < 200000000:
+                bad.append("c05.retransmitted-sooner-than-200ms")
+            if c.last_rto is not None and d < 2 * c.last_rto:
+                bad.append("c05.timeout-not-doubled")
+            c.last_rto = d
+        if outstanding and d >= 0 and not c.prev_wnd:
             # the peer's window is closed: the timer fires, nothing may be sent; the back-off ends in ErrTimeout
             c.loss_episode = True
-        elif outstanding:
+        elif outstanding and d >= 0:
             c.loss_episode = True
             if not outs:
                 bad.append("c02.outstanding-data-never-retransmitted")
@@ -549,13 +562,7 @@ class Oracle:
                     bad.append("c05.timeout-retransmits-wrong-segment")
                 if len([s for s in outs if s["len"] > 0 or "F" in s["fl"]]) != 1:
                     bad.append("c05.timeout-sends-more-than-one-segment")
-                if 0 <= dt < 200:
-                    bad.append("c05.retransmitted-sooner-than-200ms")
-                if c.last_rto is not None and dt >= 0 and dt + 100 < 2 * c.last_rto:
-                    bad.append("c05.timeout-not-doubled")
-                if dt >= 0:
-                    c.last_rto = dt
-        elif len(c.W) > c.max_end and not outs and not c.fin_sent:
+        elif not outstanding and len(c.W) > c.max_end and not outs and not c.fin_sent:
             # accepted data that was never sent, nothing in flight, and nothing happens: only a window
             # update from the peer can restart the connection -- if that packet is lost it stalls for ever
             bad.append("c02.closed-window-never-probed")
